@@ -21,6 +21,11 @@ pub struct Case14 {
     pub flags: u16,
     #[serde(with = "hexser")]
     pub body: Vec<u8>,
+    /// every receiver reads through a reader that, while serving its
+    /// `at`-th request, uses the library for something else (a nested
+    /// decode under other options, ...)
+    #[serde(default)]
+    pub reentry: Option<(u32, Nested)>,
 }
 
 type R = Result<SpecMessage, Vec<DecodeError>>;
@@ -42,14 +47,24 @@ fn exec_c14(case: &Case14, obs: &mut Obs) -> Result<(), Failure> {
     let hex = || format!("flags {:#06x} body {}", w, to_hex(&case.body[..case.body.len().min(48)]));
     obs.steps += 9;
     // the nine receivers
+    let rcfg = match &case.reentry {
+        Some((at, nested)) => {
+            obs.count("probe:re-entrant-reader");
+            ReaderCfg::Reentrant {
+                at: *at,
+                nested: nested.clone(),
+            }
+        }
+        None => ReaderCfg::Real,
+    };
     let mut res: Vec<R> = Vec::with_capacity(8);
     for i in 0..8u8 {
-        match decode_msg(&b, Some(Opts::from_index(i)), &ReaderCfg::Real, false) {
+        match decode_msg(&b, Some(Opts::from_index(i)), &rcfg, false) {
             Ok(o) => res.push(o.result),
             Err(_) => return Ok(()), // totality: C01
         }
     }
-    let dflt = match decode_msg(&b, None, &ReaderCfg::Real, false) {
+    let dflt = match decode_msg(&b, None, &rcfg, false) {
         Ok(o) => o.result,
         Err(_) => return Ok(()),
     };
@@ -267,6 +282,7 @@ impl Scenario for C14 {
     fn run(rng: &mut Rng, ctx: &mut Ctx) {
         let sw = Swarm::draw(rng);
         let bods = bodies(rng, &sw);
+        let mut sm = rng.fork("seams");
         let words: Vec<u16> = match ctx.tier {
             Tier::Thorough => {
                 // the whole flag-word space, sliced over runs: run i of 8192
@@ -307,6 +323,12 @@ impl Scenario for C14 {
                 let case = Case14 {
                     flags: *w,
                     body: body.clone(),
+                    reentry: if sm.chance(1, 8) {
+                        let at = if sm.chance(3, 4) { sm.range(1, 4) } else { sm.range(1, 30) } as u32;
+                        Some((at, draw_nested(&mut sm)))
+                    } else {
+                        None
+                    },
                 };
                 ctx.obs.distinct(mix2(*w as u64, fnv1a(body)));
                 ctx.obs.count("fault:set-flag-word");
@@ -323,11 +345,18 @@ impl Scenario for C14 {
     }
     fn shrink(case: &Case14) -> Vec<Case14> {
         let mut out = Vec::new();
+        if case.reentry.is_some() {
+            out.push(Case14 {
+                reentry: None,
+                ..case.clone()
+            });
+        }
         for i in 0..16 {
             if case.flags & (1 << i) != 0 {
                 out.push(Case14 {
                     flags: case.flags & !(1 << i),
                     body: case.body.clone(),
+                    reentry: case.reentry.clone(),
                 });
             }
         }
@@ -335,6 +364,7 @@ impl Scenario for C14 {
             out.push(Case14 {
                 flags: case.flags,
                 body: b,
+                reentry: case.reentry.clone(),
             });
         }
         out
